@@ -50,6 +50,9 @@ PROPS = {
     "C05": dict(pkg="c05", level="exploration",
                 quick=[R(checks=800)],
                 thorough=[R(checks=4000, shards=16, timeout=1500)]),
+    "C06": dict(pkg="c06", level="exploration",
+                quick=[R(checks=110, shards=8, timeout=900)],
+                thorough=[R(checks=500, shards=16, timeout=2400)]),
     "C07": dict(pkg="c07", level="exploration",
                 quick=[R(checks=1000)],
                 thorough=[R(checks=2500, shards=16, timeout=2400)]),
